@@ -35,7 +35,13 @@ manifest = {
             "path": "harness/",
             "serves_properties": sorted(CLAIMED),
             "kind_free_text": "explicit TLA+ specifications (spec/) model-checked with TLC; every TLC state/behaviour replayed into the real code (compiled and interpreted) and recorded implementation traces validated by TLC trace specifications",
-        }
+        },
+        {
+            "name": "tlc-conformance-extras",
+            "path": "harness/check_X01.py harness/check_X02.py harness/check_X03.py",
+            "serves_properties": [],
+            "kind_free_text": "the same technique applied to system behaviour outside the 20 listed properties (specification growth): X01 sampler start states, greedy caller, quality / MEC fields (spec/StartAndQuality); X02 command-line configuration resolution (spec/Arguments); X03 PEDERR statistic, multiset algebra, k-mer statistics (spec/PedErrAndBags). Run with ./check X0n --tier quick|thorough; evidence in evidence/X0n.json; their findings are listed in KNOWN_FINDINGS.json under X0n and never raise an alarm for a listed property.",
+        },
     ],
     "checks": [],
     "not_applicable": [],
